@@ -574,3 +574,31 @@ def zip_parallel(fi, loop):
             if e is not None:
                 out[tgt.id] = e
     return out
+
+
+def holds_on_edge(cfg, t, x, label="true"):
+    """node x is reached only through the `label` edge of test t"""
+    seen, work = set(), [cfg.entry]
+    while work:
+        n_ = work.pop()
+        if n_ in seen:
+            continue
+        seen.add(n_)
+        for m_, lab in n_.succ:
+            if n_ is t and lab == label:
+                continue
+            work.append(m_)
+    return x not in seen
+
+
+def absent_at(cfg, node, kwname="kwargs"):
+    """names N for which `"N" not in kwargs` is established at `node` (every path to it takes the corresponding edge)"""
+    out = set()
+    for t in cfg.find("test"):
+        e = t.ast
+        if isinstance(e, ast.Compare) and len(e.ops) == 1 and isinstance(e.ops[0], (ast.In, ast.NotIn)) and isinstance(e.left, ast.Constant) and isinstance(e.left.value, str) \
+                and isinstance(e.comparators[0], ast.Name) and e.comparators[0].id == kwname:
+            lab = "true" if isinstance(e.ops[0], ast.NotIn) else "false"
+            if cfg.dominates(t, node) and holds_on_edge(cfg, t, node, lab):
+                out.add(e.left.value)
+    return out
